@@ -79,6 +79,12 @@ func (m *Apply) Step(c *sim.Cluster) *common.Violation {
 			if len(n.Log.Entries) > 0 {
 				last = n.Log.Entries[len(n.Log.Entries)-1].Index
 			}
+			// entries covered by the node's newest snapshot count as held
+			for _, sn := range n.Sn.Snaps {
+				if sn.Meta.LastIncludedIndex > last {
+					last = sn.Meta.LastIncludedIndex
+				}
+			}
 			if v.CommitIndex > last {
 				return viol("C01", "commit-beyond-log", "n%d commit index %d exceeds last log index %d", i, v.CommitIndex, last)
 			}
@@ -230,6 +236,9 @@ func (m *Commit) Step(c *sim.Cluster) *common.Violation {
 			continue
 		}
 		for idx := v.CommitIndex; idx > 0; idx-- {
+			if idx <= v.LastIncludedIndex {
+				break // covered by the node's snapshot: whatever the log file still holds there is not read by the node
+			}
 			e, ok := logEntry(n, idx)
 			if !ok {
 				break
